@@ -649,6 +649,22 @@ pub fn mutants(rng: &mut Rng, s: &str) -> Vec<(&'static str, String)> {
     let pos = |rng: &mut Rng| if n == 0 { 0 } else { rng.below(n) };
     let put = |i: usize, c: &str| -> String { let mut v: String = cs[..i].iter().collect(); v.push_str(c); v.extend(cs[i..].iter()); v };
     let rep = |i: usize, c: &str| -> String { let mut v: String = cs[..i].iter().collect(); v.push_str(c); if i < n { v.extend(cs[i + 1..].iter()); } v };
+    // one capital letter at a time in lower case (a class test that accepts any letter where a capital is documented)
+    for (k, i) in cs.iter().enumerate().filter(|(_, c)| c.is_ascii_uppercase()).map(|(i, _)| i).enumerate() {
+        if k >= 10 { break; }
+        out.push(("lower_one", rep(i, &cs[i].to_ascii_lowercase().to_string())));
+    }
+    // a zero in front of each run of digits (a number one digit longer than written, with the same value)
+    {
+        let mut k = 0;
+        for i in 0..n {
+            if cs[i].is_ascii_digit() && (i == 0 || !cs[i - 1].is_ascii_digit()) {
+                if k >= 6 { break; }
+                k += 1;
+                out.push(("zero_pad", put(i, "0")));
+            }
+        }
+    }
     out.push(("append_char", format!("{s}X")));
     out.push(("append_digit", format!("{s}7")));
     out.push(("append_space", format!("{s} ")));
